@@ -254,7 +254,7 @@ func H_special() {
 // `-(2 ** $b)`). Shapes: 0 `$a S3 B $c`, 1 `$aS3 B $c` (no blanks), 2 `S2 B $c` (prefix),
 // 3 `$a B S2 ** $c` (signed base of a power on the right of B).
 func H_signed_literals() {
-	shape := symx.Choose("shape", 4)
+	shape := symx.Choose("shape", 6)
 	sign := []string{"-", "+"}[symx.Choose("sign", 2)]
 	j := symx.Choose("op", len(ops))
 	b := ops[j]
@@ -290,6 +290,22 @@ func H_signed_literals() {
 		} else {
 			full = "(" + sign + "2) " + b.sym + " $c"
 		}
+	case 4:
+		// the sign and the literal separated by a blank / a comment (two tokens, not a fused literal)
+		names = []string{"c"}
+		min = sign + " 2 " + b.sym + " $c"
+		if b.sym == "**" {
+			full = "-(2 ** $c)"
+		} else {
+			full = "(-2) " + b.sym + " $c"
+		}
+	case 5:
+		if b.sym == "**" {
+			return
+		}
+		heavy = true
+		min = "$a " + b.sym + " " + sign + " /* c */ 2 ** $c"
+		full = "$a " + b.sym + " (-(2 ** $c))"
 	case 3:
 		if b.sym == "**" {
 			return
@@ -302,7 +318,7 @@ func H_signed_literals() {
 			full = "$a " + b.sym + " (2 ** $c)"
 		}
 	}
-	binds := operands(names, b.conc || heavy || shape == 3 || (shape == 2 && b.sym == "**"))
+	binds := operands(names, b.conc || heavy || shape == 3 || shape == 5 || ((shape == 2 || shape == 4) && b.sym == "**"))
 	check(min, full, binds, "signed-literal")
 }
 
